@@ -33,6 +33,16 @@ func (c *vpSignChain) VerifySingleTxnSoftHardConstraints(tx *dbutil.Tx, txn coin
 }
 func (c *vpSignChain) Time(tx *dbutil.Tx) (uint64, error) { return c.headTime, nil }
 
+type vpSignHistory struct {
+	Historyer
+	outs    []historydb.UxOut
+	outsErr error
+}
+
+func (h *vpSignHistory) GetUxOuts(tx *dbutil.Tx, ids []cipher.SHA256) ([]historydb.UxOut, error) {
+	return h.outs, h.outsErr
+}
+
 type vpSignWallet struct {
 	wallet.Wallet
 	entries wallet.Entries
@@ -84,7 +94,7 @@ func vpH_C28_WalletSignNoPanic() {
 	if vpBool("indexGiven") {
 		idx = []int{vpLen("index", 0, 2)}
 	}
-	hist := &vpFakeHistory{outs: houts}
+	hist := &vpSignHistory{outs: houts}
 	if vpBool("histOutsErr") {
 		hist.outs, hist.outsErr = nil, vpErrStore
 	}
